@@ -477,7 +477,7 @@ def groups(tier):
         c["forms"] = ["fwd"]
         c["W"], c["B"] = 1, 1
         c09.on_shape(c)
-        if 2 ** c09.LEN * NF <= (200 if tier == "quick" else 1600):
+        if 2 ** c09.LEN * NF <= (200 if tier == "quick" else 400):
             nretry += 1
             gs.append({"name": "retry-%s-W1B1" % c["name"], "fn": "check_retry", "shape": c,
                        "cond_timeout": 900.0 if tier == "quick" else 2400.0, "path_timeout": 120.0, "weight": 2 ** c09.LEN * NF})
